@@ -311,9 +311,14 @@ MEASURES_2D = ["col_percent", "row_percent", "table_percent", "count_weighted",
                "row_base_unweighted", "row_base_weighted", "table_base_unweighted",
                "table_base_weighted", "col_std_dev", "row_std_dev", "table_std_dev",
                "col_std_err", "col_percent_moe", "row_std_err", "row_percent_moe",
-               "table_std_err", "table_percent_moe", "population", "col_index"]
+               "table_std_err", "table_percent_moe", "population", "col_index",
+               "population_moe", "valid_count_weighted", "valid_count_unweighted", "z_score",
+               "p_value"]
+MEASURES_2D_Y = ["mean", "sum", "stddev", "col_share_sum", "row_share_sum", "total_share_sum"]
 MEASURES_1D = ["percent", "count_weighted", "count_unweighted", "base_unweighted",
-               "base_weighted", "percent_stddev", "percent_stderr", "percent_moe"]
+               "base_weighted", "percent_stddev", "percent_stderr", "percent_moe",
+               "population", "population_moe"]
+MEASURES_1D_Y = ["mean", "sum", "share_sum"]
 MARGINALS = ["unweighted_base", "weighted_base", "table_proportion", "scale_mean",
              "scale_median", "scale_mean_stddev", "scale_mean_stderr"]
 
@@ -342,8 +347,12 @@ def sort_configs(rows_dim, cols_dim, n, seed, has_y=False):
         sort_rows = cols_dim is None or rng.random() < 0.6
         rins = some_ins(rows_dim)
         cins = some_ins(cols_dim) if cols_dim is not None else []
-        meas2 = MEASURES_2D + (["mean", "sum"] if has_y else [])
-        meas1 = MEASURES_1D + (["mean", "sum"] if has_y else [])
+        # has_y: the numeric measures the response carries (True = mean and sum)
+        ym = set(("mean", "sum") if has_y is True else (has_y or ()))
+        needs = {"mean": "mean", "sum": "sum", "stddev": "stddev", "col_share_sum": "sum",
+                 "row_share_sum": "sum", "total_share_sum": "sum", "share_sum": "sum"}
+        meas2 = MEASURES_2D + [m for m in MEASURES_2D_Y if needs[m] in ym]
+        meas1 = MEASURES_1D + [m for m in MEASURES_1D_Y if needs[m] in ym]
 
         def sort_order(dim, opp, opp_ins, is_rows):
             if opp is None:
